@@ -43,7 +43,7 @@ def _mk_case(rng, nin):
 
 
 def cases(tier, rng):
-    for j in range(40 if tier == "quick" else 800):
+    for j in range(40 if tier == "quick" else 300):
         nin = rng.choice([1, 2, 2, 3, 3, 4]) if j % 5 else rng.choice([5, 6, 8])
         c = _mk_case(rng, nin)
         ops = [("s", i) for i in range(nin)] + [("a", i) for i in range(nin)]
@@ -153,7 +153,9 @@ def _run_alias(d):
     from bitcoinutils.script import Script
     rng = random.Random(d["seed"])
     tx = tx_build(d["tx"])
-    snapshot = tx.to_bytes(True).hex() + tx.to_bytes(False).hex()
+    snap = lambda: tx.to_hex() + "|" + tx.to_bytes(True).hex() + "|" + tx.to_bytes(False).hex() + "|%r|%d|%d|%d" % (
+        tx.has_segwit, len(tx.inputs), len(tx.outputs), len(tx.witnesses))
+    snapshot = snap()
     live = [tx]; copies = []
     sep = True; unchanged = True
     for st in d["steps"]:
@@ -203,7 +205,7 @@ def _run_alias(d):
             guarded(lambda: tx.get_transaction_digest(i, Script(["OP_1"]), rng.choice(LEGACY_TYPES)))
             guarded(lambda: tx.get_transaction_segwit_digest(i, Script(["OP_1"]), 5, rng.choice(LEGACY_TYPES)))
             guarded(lambda: tx.get_transaction_taproot_digest(i, [Script(["OP_1"])] * len(tx.inputs), [5] * len(tx.inputs), 0, sighash=0))
-        unchanged &= (tx.to_bytes(True).hex() + tx.to_bytes(False).hex()) == snapshot
+        unchanged &= snap() == snapshot
     return "sep=%d,orig_unchanged=%d" % (sep, unchanged)
 
 
